@@ -49,7 +49,9 @@ with query : Type :=
 with fromitem : Type :=
 | FTable (name : nat) (width : nat)
 | FSub (q : query) (width : nat)
-| FJoin (k : joinkind) (l r : fromitem) (on : expr).   (* [on] sees the concatenated l ++ r row *)
+| FJoin (k : joinkind) (l r : fromitem) (on : expr)    (* [on] sees the concatenated l ++ r row *)
+| FView (name : nat) (width : nat).                     (* a reference to view / CTE number [name];
+                                                           given meaning by expansion (Sem/Views.v) *)
 
 (** A database: table number -> rows (a bag, stored as a list). *)
 Definition db := list (list row).
@@ -59,4 +61,5 @@ Fixpoint from_width (f : fromitem) : nat :=
   | FTable _ w => w
   | FSub _ w => w
   | FJoin _ l r _ => from_width l + from_width r
+  | FView _ w => w
   end.
